@@ -62,7 +62,7 @@ class History:
             self.sess = sess
             tree = restrict(sess.initial, True)
             pacer = Pacer()
-            gen = OpGen(u, r, bias=cfg.get("bias"), pacing=cfg.get("pacing", True))
+            gen = OpGen(u, r, bias=cfg.get("bias"), pacing=cfg.get("pacing", True), allow_out_ops=cfg.get("out_ops", False))
             seg_ops: list = []
             try:
                 sess.drain()
@@ -95,6 +95,10 @@ class History:
                         self._drain_and_check(sess, tree, seg_ops, justify, probes=False, single=True)
                         pacer.drained()
                 self._drain_and_check(sess, tree, seg_ops, justify, probes=cfg.get("final_probes", True), final=True)
+                if cfg.get("root_probe"):
+                    self._probe_root(sess)
+                if cfg.get("delete_root"):
+                    self._delete_root(sess)
             except DrainFailed as e:
                 if e.reason == "library-thread-died":
                     rec = e.detail[0]
@@ -153,6 +157,54 @@ class History:
         # ---- C02 probes
         if probes:
             self._probe_all(sess)
+
+    def _probe_root(self, sess: Session):
+        """C07: whatever happened before, the root's own watch must still report a file created directly in the root."""
+        u = self.u
+        n = getattr(self, "_probe_n", 0) + 1
+        self._probe_n = n
+        name = f"{fsrig.PROBE}{n}"
+        fd = os.open(u.abs(u.root_name + "/" + name), os.O_CREAT | os.O_EXCL | os.O_WRONLY, 0o644)
+        os.close(fd)
+        sess.drain()
+        evs = sess.take()
+        want = sess.spell(name)
+        self.c("root_probes_judged")
+        if not any(type(e).__name__ == "FileCreatedEvent" and e.src_path == want for e in evs):
+            self.v("C07", "root-probe-unreported", f"after the history a file created directly in the root was not reported (expected {want!r})",
+                   history=self.ops[-40:])
+        os.unlink(u.abs(u.root_name + "/" + name))
+        sess.drain()
+        sess.take()
+
+    def _delete_root(self, sess: Session):
+        """C07: deleting the root delivers exactly one DirDeletedEvent(root) and that watch's emitter stops cleanly."""
+        import shutil
+        import time as _t
+
+        u = self.u
+        emitters = list(sess.obs.emitters)
+        sess.take()
+        shutil.rmtree(u.abs(u.root_name))
+        end = _t.monotonic() + 10
+        while _t.monotonic() < end and any(e.is_alive() for e in emitters):
+            _t.sleep(0.01)
+        # let the dispatcher finish what is queued
+        end = _t.monotonic() + 5
+        while _t.monotonic() < end and sess.obs.event_queue.unfinished_tasks:
+            _t.sleep(0.005)
+        _t.sleep(0.05)
+        evs = sess.take()
+        rootp = sess.root_spelled
+        alt = {rootp, rootp.rstrip(b"/" if isinstance(rootp, bytes) else "/")}
+        n = sum(1 for e in evs if type(e).__name__ == "DirDeletedEvent" and e.src_path in alt)
+        self.c("root_deletions_judged")
+        if n != 1:
+            self.v("C07", "root-deleted-event-count", f"root removed: {n} DirDeletedEvent(root) delivered (expected exactly 1); tail={[fsrig.ev_desc(e) for e in evs][-6:]}")
+        if any(e.is_alive() for e in emitters):
+            self.v("C07", "emitter-alive-after-root-deleted", "the emitter of the deleted root is still alive 10 s later")
+        if not sess.obs.is_alive():
+            self.v("C07", "observer-died-on-root-deletion", "the observer thread itself ended when the root was deleted")
 
     def _probe_all(self, sess: Session):
         u = self.u
